@@ -6,7 +6,8 @@ from contracts import c_utils
 META = {
     "level": "other",
     "text": "Deductive: split_idx, the function every generation-side work split goes through, is verified for all (N, P, rank) with its tiling lemmas "
-            "(slices contiguous, disjoint, in rank order, covering 0..N-1, including P > N). Structural obligations on every function of generator.py, simplifier.py and "
+            "(slices contiguous, disjoint, in rank order, covering 0..N-1, including P > N); the work split of shape_to_functions is verified against it: rank r rewrites exactly the "
+            "trees at the positions of its slice [lo(r), lo(r+1)), also when it owns nothing. Structural obligations on every function of generator.py, simplifier.py and "
             "duplicate_checker.py (flow-sensitive rank-taint analysis of the AST): each MPI collective is reached under rank-invariant control (all ranks execute the same "
             "sequence of collectives, so none waits forever) and every write to the file system is executed by rank 0 only. Bounded (not counted as proved): real generation on the "
             "multi-process MPI stand-in with P in {1,2,3,5,16} (more ranks than functions with a map), perturbed rank speeds; tree, function and "
@@ -22,11 +23,17 @@ def check(run):
     tier = run.tier
     st, failed, eng = D.verify_function(run, "generation/utils.py", "split_idx", c_utils.split_idx_contract)
     D.prove_lemmas(run, "split_idx tiling", c_utils.tiling_lemmas())
+    from contracts import c_generator
+    st2, failed2, _e = D.verify_function(run, "generation/generator.py", "shape_to_functions", c_generator.stf_slice_contract, timeout_ms=8000, tag="slice",
+                                         note="region: split_idx call and the empty-slice branch; the guard of find_additional_trees is evaluated in the final state")
+    failed = list(failed) + list(failed2)
     sfailed = D.structural_spmd(run, ["generation/generator.py", "generation/simplifier.py", "generation/duplicate_checker.py"], "generation")
     plist = [1, 2, 5, 16] if tier == "quick" else [1, 2, 3, 5, 7, 16]
     groups = [[{"runname": "core_maths", "n": 3, "P_list": plist, "perturb": True}],
               [{"runname": "core_maths", "n": 4, "P_list": plist[:3] if tier == "quick" else plist, "perturb": True}],
-              [{"runname": "ext_maths", "n": 3, "P_list": [1, 3, 16], "perturb": True}]]
+              [{"runname": "ext_maths", "n": 3, "P_list": [1, 3, 16], "perturb": True}],
+              # a basis with so few functions per shape that most ranks own nothing of a shape (5 functions of shape 2,0,0; function 0 has a rewritten tree)
+              [{"runname": "verif_c13_tiny", "n": 3, "basis": [["x"], ["inv"], ["+", "*", "-", "/", "pow"]], "P_list": [1, 6, 9], "perturb": False}]]
     if tier != "quick":
         groups.append([{"runname": "core_maths", "n": 5, "P_list": [1, 3, 16], "perturb": True}])
         groups.append([{"runname": "ext_maths", "n": 4, "P_list": [1, 5], "perturb": True}])
